@@ -8,6 +8,7 @@ Plus an exhaustive sweep: every one of the 0x110000 code points x every category
 union of minors, minors disjoint and covering, blocks pairwise disjoint; structural invariants for every
 installable Unicode version.
 """
+import itertools
 import sys
 import unicodedata
 from collections import deque
@@ -100,6 +101,7 @@ def plan(tier, seed):
     units += [{'part': 'charclass', 'first': i} for i in range(2 * len(CC_PARTS_QUICK if tier == 'quick' else CC_PARTS) + 6)]
     units += [{'part': 'categories', 'lo': lo, 'hi': lo + 0x11000} for lo in range(0, 0x110000, 0x11000)]
     units += [{'part': 'structure'}]
+    units += [{'part': 'string-args'}]
     units += [{'part': 'install-history', 'versions': v} for v in (['13.0.0', '16.0.0'], ['2.0.0', '15.1.0'], ['12.1.0', '14.0.0'])]
     if tier != 'quick':
         units += [{'part': 'versions'}]
@@ -761,8 +763,92 @@ def run_install_history(unit, tier, acc):
     acc.sample({'history': ['install_unicode_data(%r)' % vs[0], "CharacterClass('\\d')", 'install_unicode_data(%r)' % vs[-1], "CharacterClass('\\d')"]})
 
 
+STRING_ITEMS = {'a': 'a', 'c': 'c', 'a-c': 'abc', '\\[': '[', '\\]': ']', '\\\\': '\\', '\\^': '^', '\\-': '-', 'x': 'x', 'c-x': 'cdefghijklmnopqrstuvwx'}
+
+
+def run_string_args(unit, tier, acc):
+    """UnicodeSubset built / updated / reduced from a STRING: every concatenation of up to 3 (thorough 4) items (single characters,
+    ranges, escaped brackets, backslash, caret, hyphen) with an optional literal hyphen at the start and at the end; the set is the
+    union of the items (a hyphen first or last is the hyphen itself).  Also the in-place operators with the SAME object on both sides."""
+    from elementpath.regex import UnicodeSubset
+    probe = 'abcdwxyz[]\\^-_'
+    n = 3 if tier == 'quick' else 4
+    reported = set()
+    for k in range(1, n + 1):
+        for t in itertools.product(STRING_ITEMS, repeat=k):
+            for lead in ('', '-'):
+                for trail in ('', '-'):
+                    text = lead + ''.join(t) + trail
+                    want = set(''.join(STRING_ITEMS[i] for i in t)) | ({'-'} if lead or trail else set())
+                    want_p = {ch for ch in probe if ch in want}
+                    acc.case(len(want) > 1)
+                    for how in ('constructor', 'update', '|=', 'difference_update', '-=', '^='):
+                        try:
+                            if how == 'constructor':
+                                sub = UnicodeSubset(text)
+                            elif how == 'update':
+                                sub = UnicodeSubset()
+                                sub.update(text)
+                            elif how == '|=':
+                                sub = UnicodeSubset()
+                                sub |= text
+                            elif how == '^=':
+                                sub = UnicodeSubset()
+                                sub ^= text
+                            else:
+                                sub = UnicodeSubset([(0x20, 0x7f)])
+                                if how == '-=':
+                                    sub -= text
+                                else:
+                                    sub.difference_update(text)
+                            got = {ch for ch in probe if ord(ch) in sub}
+                            if how in ('difference_update', '-='):
+                                got = set(probe) - got
+                        except Exception as e:  # noqa
+                            got = 'raised ' + type(e).__name__
+                        acc.ev()
+                        acc.cmp()
+                        acc.outcome('string-arg:%s' % ('ok' if got == want_p else 'bad'))
+                        if got != want_p:
+                            sig = 'C13|subset-from-string|%s|%s' % (how, 'raised' if isinstance(got, str) else 'missing' if want_p - got else 'extra')
+                            if sig not in reported:
+                                reported.add(sig)
+                                acc.violation(sig, 'UnicodeSubset %s %r' % (how, text), {'expected': ''.join(sorted(want_p)), 'observed': got if isinstance(got, str) else ''.join(sorted(got))},
+                                              {'part': 'string-args'})
+    # the same object on both sides of an in-place operator
+    for spec in ([1, (3, 6), 9], [(0, 3)], [5], [1, 3, 5, 7], [(1, 3), (5, 8), (10, 12), 20]):
+        for op in ('-=', '|=', '&=', '^=', 'difference_update', 'update'):
+            sub = UnicodeSubset(list(spec))
+            before = {cp for cp in range(0, 25) if cp in sub}
+            try:
+                if op == '-=':
+                    sub -= sub
+                elif op == '|=':
+                    sub |= sub
+                elif op == '&=':
+                    sub &= sub
+                elif op == '^=':
+                    sub ^= sub
+                elif op == 'update':
+                    sub.update(sub)
+                else:
+                    sub.difference_update(sub)
+                got = {cp for cp in range(0, 25) if cp in sub}
+            except Exception as e:  # noqa
+                got = 'raised ' + type(e).__name__
+            want = set() if op in ('-=', '^=', 'difference_update') else before
+            acc.ev()
+            acc.cmp()
+            if got != want:
+                acc.violation('C13|subset-self-operand|%s' % op, 's = UnicodeSubset(%r); s %s s' % (spec, op), {'expected': sorted(want), 'observed': got if isinstance(got, str) else sorted(got)},
+                              {'part': 'string-args'})
+    acc.sample({'string_argument': '-\\[a-c-', 'expected_set': '-[abc'}, limit=1)
+
+
 def run_unit(unit, tier, acc):
     p = unit['part']
+    if p == 'string-args':
+        return run_string_args(unit, tier, acc)
     {'subset': run_subset, 'charclass': run_charclass, 'categories': run_categories, 'structure': run_structure,
      'versions': run_versions, 'install-history': run_install_history}[p](unit, tier, acc)
 
@@ -778,5 +864,7 @@ def replay(case, acc):
         run_categories({'lo': case.get('lo', 0), 'hi': case.get('hi', 0x11000)}, 'quick', acc)
     elif p == 'install-history':
         run_install_history({'versions': ['13.0.0', '16.0.0', '2.0.0']}, 'quick', acc)
+    elif p == 'string-args':
+        run_string_args({}, 'quick', acc)
     else:
         run_structure({}, 'quick', acc)
